@@ -589,6 +589,13 @@ def sub_rule(repo, res, tier, rule="SK-SUB"):
         accepts = []
         exits = []
         consumes = []
+        # `[[ -v "state_transitions[$literal_id]" ]] || continue` at the head of the loop body makes the test hold for everything after it
+        # in that iteration (the same test hoisted out of the three conditions)
+        hoisted_line = None
+        for s0 in stmts(lit_for.body):
+            if s0.kind == "andor" and s0.first.kind == "cond" and len(s0.rest) == 1 and s0.rest[0][0] == "||" and s0.rest[0][1].kind == "simple" and s0.rest[0][1].words[:1] == ["continue"] and len(s0.rest[0][1].words) == 1:
+                if any(t[0] == "un" and t[1] == "-v" and "state_transitions[$literal_id]" in t[2] for t in cond_tests(s0.first)) and len([t for t in cond_tests(s0.first) if t[0] in ("un", "bin")]) == 1:
+                    hoisted_line = s0.line
         for n, loops, conds, f in B.walk(lit_for, (wl,)):
             if n.kind == "if":
                 c = stmts(n.clauses[0][0])
@@ -596,7 +603,7 @@ def sub_rule(repo, res, tier, rule="SK-SUB"):
                     continue
                 tt = cond_tests(c[0])
                 eqs = [t for t in tt if t[0] == "bin" and t[2] in ("==", "=")]
-                has_tr = any(t[0] == "un" and t[1] == "-v" and "state_transitions[$literal_id]" in t[2] for t in tt)
+                has_tr = any(t[0] == "un" and t[1] == "-v" and "state_transitions[$literal_id]" in t[2] for t in tt) or (hoisted_line is not None and hoisted_line < n.line)
                 inner = stmts(n.clauses[0][1])
                 acts = [s.words for s in inner if s.kind == "simple" and s.words[0] in ("continue", "break")]
                 for t in eqs:
